@@ -45,7 +45,8 @@ fn tmp_dir() -> PathBuf {
 pub fn scenarios_for(prop: &str) -> Vec<&'static str> {
     match prop {
         "C01" => vec!["hist", "registry", "replica"],
-        "C06" | "C10" | "C12" | "C18" => vec!["hist"],
+        "C06" | "C10" | "C18" => vec!["hist"],
+        "C12" => vec!["hist", "registry"],
         "C07" => vec!["replica"],
         "C16" | "C17" => vec!["scratch"],
         "C19" => vec!["scratch", "hist", "registry"],
@@ -64,7 +65,8 @@ pub fn run_count(prop: &str, scenario: &str, tier: &str) -> u64 {
         ("C06", "hist") => 24_000,
         ("C07", "replica") => 40_000,
         ("C10", "hist") => 60_000,
-        ("C12", "hist") => 80_000,
+        ("C12", "hist") => 76_000,
+        ("C12", "registry") => 16_000,
         ("C16", "scratch") => 30_000,
         ("C17", "scratch") => 40_000,
         ("C18", "hist") => 50_000,
@@ -910,9 +912,15 @@ pub fn cmd_check(args: &Args) -> i32 {
             failures.push(Failure { flavour: "miri", scenario: scenario.clone(), run, target: Target::Miri { force_none: none, max_ops: if scenario == "hist" { 25 } else { 30 } }, key: "C19.miri".into(), detail: json!({"oracle": "C19.miri", "observed": msg, "expected": "no undefined behaviour reported by Miri"}) });
         }
     }
-    if recheck_mismatch > 0 {
-        eprintln!("lsim: {} of {} re-executed runs gave a different history digest: the harness is not deterministic; nothing is reported", recheck_mismatch, recheck_runs);
+    if recheck_mismatch > 0 && failures.is_empty() {
+        eprintln!("lsim: {} of {} re-executed runs gave a different history digest and no violation was found: the harness (or the library) is not deterministic; nothing is reported", recheck_mismatch, recheck_runs);
         return 2;
+    }
+    if recheck_mismatch > 0 {
+        // results that differ between two executions of one run can also come from the library
+        // (behaviour that depends on addresses or on uninitialised memory). Violations are only
+        // reported if they reproduce when the run is executed alone, so go on and try.
+        println!("  note: {} of {} re-executed runs gave a different history digest; only violations that reproduce alone are reported", recheck_mismatch, recheck_runs);
     }
 
     // ---- failures: group by key, consult known findings, minimise, write replay files
@@ -923,6 +931,7 @@ pub fn cmd_check(args: &Args) -> i32 {
         by_key.entry(f.key.clone()).or_default().push(f);
     }
     let mut slow_runs = 0u64;
+    let mut unreproduced = 0u64;
     let mut violation_lines: Vec<String> = Vec::new();
     let mut known_lines: Vec<String> = Vec::new();
     let mut reported: Vec<Value> = Vec::new();
@@ -947,9 +956,28 @@ pub fn cmd_check(args: &Args) -> i32 {
                 best = Some((f, cfg, ops));
             }
         }
-        let (f, cfg, ops) = best.unwrap();
+        let (mut f, mut cfg, mut ops) = best.unwrap();
+        let mut first = fails_like(&prop, &cfg, &ops, &f.target, "first", f.flavour);
+        if first.is_none() && recheck_mismatch > 0 {
+            // address-dependent behaviour: another run of the same key may reproduce alone
+            for g in fs.iter().take(12) {
+                let (c2, o2) = gen::generate(&prop, &g.scenario, seed, g.run);
+                let again = fails_like(&prop, &c2, &o2, &g.target, "first", g.flavour);
+                if again.is_some() {
+                    f = *g;
+                    cfg = c2;
+                    ops = o2;
+                    first = again;
+                    break;
+                }
+            }
+            if first.is_none() {
+                println!("  note: no run with key {} reproduced when executed alone; not reported", key);
+                unreproduced += 1;
+                continue;
+            }
+        }
         let original_len = ops.len();
-        let first = fails_like(&prop, &cfg, &ops, &f.target, "first", f.flavour);
         let (cfg, ops, detail, tried) = match first {
             None if matches!(f.target, Target::Hang) => {
                 // slow under load, not hanging: executed alone it finished in time
@@ -1039,6 +1067,10 @@ pub fn cmd_check(args: &Args) -> i32 {
         wall,
         if violation_lines.is_empty() { "property held on everything explored" } else { "VIOLATED" }
     );
+    if violation_lines.is_empty() && unreproduced > 0 {
+        eprintln!("lsim: violations were seen in workers, results differ between executions of the same run, and nothing reproduced alone: no verdict (harness error)");
+        return 2;
+    }
     if violation_lines.is_empty() {
         0
     } else {
